@@ -515,7 +515,18 @@ fn classify(beh: &[Value]) -> (bool, bool, bool) {
 pub fn replay(args: &[String]) {
     let path = &args[0];
     let tier = arg_value(args, "--tier").unwrap_or_else(|| "quick".into());
-    let max_tick = arg_u64(args, "--max-tick", 12);
+    // the embeddings are tables over ticks: large enough for every time that occurs in the file (events are scheduled up to
+    // two ticks past the last time the contract dispatches)
+    let mut max_tick = arg_u64(args, "--max-tick", 12);
+    for_each_line(path, |_, v| {
+        for e in v.as_array().unwrap() {
+            for k in ["t", "time", "sim_time", "start"] {
+                if let Some(t) = e[k].as_u64() {
+                    max_tick = max_tick.max(t + 3);
+                }
+            }
+        }
+    });
     let cfgs = grid(&tier, max_tick);
     let mut s = Summary::default();
     s.extra.insert("configs".into(), json!(cfgs.len()));
